@@ -10,9 +10,9 @@ import (
 )
 
 type claimable struct {
-	spread    map[string]*big.Int
-	incent    map[string]*big.Int // collectable now
-	forfeit   map[string]*big.Int // would be forfeited now
+	spread  map[string]*big.Int
+	incent  map[string]*big.Int // collectable now
+	forfeit map[string]*big.Int // would be forfeited now
 }
 
 func (s *Sim) claimableOf(id uint64) claimable {
